@@ -21,7 +21,15 @@ def main():
     if a.replay:
         from pyvc import replay
         sys.exit(replay.replay_file(a.replay, build_registry()))
-    pids = sorted(SPECS) if a.pid == 'all' else [a.pid]
+    if a.pid == 'all':
+        # one fresh process per property (a parent that has imported the numerical libraries must not fork worker pools)
+        import subprocess
+        rc = 0
+        for pid in sorted(SPECS):
+            cmd = [sys.executable, '-m', 'pyvc.cli', pid, '--tier', a.tier] + (['--write-baseline'] if a.write_baseline else [])
+            rc = max(rc, subprocess.call(cmd))
+        sys.exit(rc)
+    pids = [a.pid]
     rc = 0
     for pid in pids:
         if pid not in SPECS:
